@@ -249,6 +249,11 @@ func (b *backend) kill() {
 	}
 }
 
+// (read without the mutex: the registrar tasks must not be ordered by it)
+//
+//go:norace
+func (b *backend) isDead() bool { return b.dead }
+
 func (b *backend) stop() {
 	b.cc.Close()
 	b.srv.Stop()
